@@ -2046,7 +2046,11 @@ impl<'a, SE: extensions::ShellExtensions> WordExpander<'a, SE> {
                 prompt::expand_prompt(self.shell, self.params, s).await
             }
             brush_parser::word::ParameterTransformOp::CapitalizeInitial => {
-                Ok(to_initial_capitals(s))
+                // `@u` upper-cases the first character of the value (not of every word).
+                let mut chars = s.chars();
+                Ok(chars.next().map_or_else(String::new, |first| {
+                    first.to_uppercase().chain(chars).collect()
+                }))
             }
             brush_parser::word::ParameterTransformOp::ExpandEscapeSequences => {
                 let (result, _) =
@@ -2108,6 +2112,7 @@ fn coalesce_expansions(expansions: Vec<Expansion>) -> Expansion {
         })
 }
 
+#[cfg(test)]
 fn to_initial_capitals(s: &str) -> String {
     let mut result = String::new();
     let mut capitalize_next = true;
